@@ -306,7 +306,7 @@ class FFDirector(SectionLineParser):
     @SectionLineParser.section_parser('link', 'constraints', context_type='link')
     @SectionLineParser.section_parser('link', 'pairs', context_type='link')
     @SectionLineParser.section_parser('link', 'exclusions', context_type='link')
-    @SectionLineParser.section_parser('link', 'pairs_nb', context_type='block')
+    @SectionLineParser.section_parser('link', 'pairs_nb', context_type='link')
     @SectionLineParser.section_parser('link', 'SETTLE', context_type='link')
     @SectionLineParser.section_parser('link', 'virtual_sites2', context_type='link')
     @SectionLineParser.section_parser('link', 'virtual_sites3', context_type='link')
